@@ -98,9 +98,24 @@ VERUS = [dict(
         dict(name="negative_scale_as_zero", item="decimal_scale_multiplier", find="return None;", replace="return Some(1);"),
     ],
 )]
-KANI = []
+_INTS = ["i8", "i16", "i32", "i64", "u8", "u16", "u32", "u64"]
+_DECS = ["d32", "d64", "d128", "d256"]
+_H = [dict(name="c47_coercion_int_int", complete=True, bound="all 64 pairs of integer types",
+           what="binary_numeric_coercion on two integer types: symmetric in its operands, the common type contains both ranges")]
+for _d in _DECS:
+    for _k in _INTS:
+        _H.append(dict(name="c47_coercion_%s_%s" % (_d, _k), complete=True,
+                       bound="loop-free: every precision Arrow accepts for the variant, every scale in [-40, p]",
+                       what="binary_numeric_coercion(decimal, integer): symmetric; the common type never drops fractional digits, never narrows the integer range silently (integer digits only clamped at the variant's maximum precision, where the cast overflows with an error)"))
+for _a in range(4):
+    for _b in range(_a, 4):
+        _H.append(dict(name="c47_coercion_%s_%s" % (_DECS[_a], _DECS[_b]), complete=True,
+                       bound="loop-free: every precision/scale pair Arrow accepts with scales >= -40, minus the pairs on which the i8 precision arithmetic of get_wider_decimal_type overflows (observation O6)",
+                       what="binary_numeric_coercion(decimal, decimal): symmetric; scale never reduced, integer digits kept or clamped at the maximum precision"))
+KANI = [dict(package="datafusion-expr-common", module="expr_common/casts.rs", timeout=900, jobs=8, harnesses=_H)]
 TRUSTED = ["Verus 0.2026.09.13 + bundled Z3", "type model of DataType / ScalarValue restricted to the variants the function distinguishes", "assume_specification i128::pow == vstd pow, requires the power to fit",
            "Arrow's MIN/MAX_DECIMAL*_FOR_EACH_PRECISION tables assumed to hold +-(10^p - 1) (R13)", "is_lossy_temporal_cast / cast_between_timestamp opaque"]
-ASSUMPTIONS = ["decimal precisions within Arrow's table sizes", "claim restricted to integer and decimal literals/targets; Date/Timestamp conversions not covered"]
-NOT_COVERED = ["comparison coercion rules (type_coercion/binary.rs), IN lists, joins, unwrap_cast.rs itself", "string / dictionary / binary literal casts", "temporal literal casts"]
+ASSUMPTIONS = ["coercion harnesses: decimal scales >= -40; casts inserted by type coercion are non-safe (overflow is an error, DEFAULT_CAST_OPTIONS), so only a dropped fractional digit or a narrower integer range is a silent loss",
+               "decimal precisions within Arrow's table sizes", "claim restricted to integer and decimal literals/targets; Date/Timestamp conversions not covered"]
+NOT_COVERED = ["comparison coercion for non-numeric types (strings, temporal, dictionaries, nested), floats (inexact by nature), IN lists, joins, the Arrow comparison kernels, unwrap_cast.rs itself", "string / dictionary / binary literal casts", "temporal literal casts"]
 EXPLANATION = ""
